@@ -5,6 +5,7 @@ import (
 	"math/rand"
 
 	"github.com/canopy-network/canopy/fsm"
+	"github.com/canopy-network/canopy/lib"
 	"github.com/canopy-network/canopy/lib/crypto"
 )
 
@@ -88,6 +89,15 @@ func pick[T any](r *rand.Rand, xs []T) T { return xs[r.Intn(len(xs))] }
 
 // RandomGenesis: amounts at 0, 1, mid and (in `big` cases) near 2^64; small deferred-action windows so
 // that unstaking / max-pause fire within a dozen blocks.
+func hasPool(g *Genesis, id uint64) bool {
+	for _, p := range g.Pools {
+		if p.Id == id {
+			return true
+		}
+	}
+	return false
+}
+
 func RandomGenesis(r *rand.Rand) *Genesis {
 	g := &Genesis{ChainId: 1, BlocksPerHalvening: 3150000, InitialTokensPerBlock: 80000000, Params: fsm.DefaultParams()}
 	big := r.Intn(6) == 0
@@ -167,6 +177,30 @@ func RandomGenesis(r *rand.Rand) *Genesis {
 	for _, id := range []uint64{1, 2*65535 + 1, 2, 3, 65535 + 1} {
 		if r.Intn(2) == 0 {
 			g.Pools = append(g.Pools, GenPool{Id: id, Amount: genesisAmount(r, false)})
+		}
+	}
+	// order books (what an exported state carries): every open sell order is credited to the chain's escrow pool ON TOP
+	// of what the pool list says; half of the time the escrow / holding / liquidity pools of those chains are listed too
+	if r.Intn(3) == 0 {
+		var n byte
+		for _, chain := range subset(r, []uint64{1, 2, 3}, 1) {
+			b := GenBook{Chain: chain}
+			for i := 1 + r.Intn(3); i > 0; i-- {
+				n++
+				b.Orders = append(b.Orders, SellOrder(n, chain, pick(r, []uint64{0, 1, 7, 1000, 123456, 1 << 33}), r.Intn(3) == 0))
+			}
+			g.Books = append(g.Books, b)
+			for _, addend := range []uint64{65535, 16383, 32767} {
+				if r.Intn(2) == 0 && !(chain == 1 && addend == 65535 && hasPool(g, 65535+1)) {
+					g.Pools = append(g.Pools, GenPool{Id: chain + addend, Amount: genesisAmount(r, false)})
+				}
+			}
+		}
+		switch r.Intn(30) {
+		case 0: // a chain listed twice
+			g.Books = append(g.Books, GenBook{Chain: g.Books[0].Chain, Orders: []*lib.SellOrder{SellOrder(200, g.Books[0].Chain, 5, false)}})
+		case 1: // a book without orders
+			g.Books = append(g.Books, GenBook{Chain: 4})
 		}
 	}
 	// validators
